@@ -4,32 +4,39 @@ reported, and remove the worktree straight afterwards.  Writes /verif/seeded/RES
 import os, json, subprocess, sys, glob
 VERIF = os.path.dirname(os.path.dirname(os.path.abspath(__file__)))
 res = {}
+WT = os.environ.get("VERIF_SEEDS_WT", "/var/tmp/verif-seed-wt/tree")   # a second invocation running at the same time names its own tree and target
 only = sys.argv[1:]
 for d in sorted(glob.glob(os.path.join(VERIF, "seeded", "*", "patch.diff"))):
     sd = os.path.dirname(d); name = os.path.basename(sd)
     if only and name not in only: continue
     meta = json.load(open(os.path.join(sd, "meta.json")))
     prop = meta["property"]
-    # the seeded tree is a scratch worktree of /repo HEAD (outside /repo and /verif, removed straight afterwards); the checks are pointed at it with VERIF_REPO, so
-    # /repo itself is never touched and a check running on /repo at the same time is not disturbed
-    wt = "/var/tmp/verif-seed-wt/%s" % name
-    subprocess.run(["git", "-C", "/repo", "worktree", "remove", "--force", wt], capture_output=True)
-    subprocess.run(["git", "-C", "/repo", "worktree", "prune"], capture_output=True)
-    w = subprocess.run(["git", "-C", "/repo", "worktree", "add", "--detach", wt, "HEAD"], capture_output=True, text=True)
-    if w.returncode != 0:
-        res[name] = dict(property=prop, applied=False, note=w.stderr[-300:]); continue
-    try:
-        a = subprocess.run(["git", "-C", wt, "apply", d], capture_output=True, text=True)
-        if a.returncode != 0:
-            res[name] = dict(property=prop, applied=False, note=a.stderr[-300:]); continue
-        p = subprocess.run([os.path.join(VERIF, "check"), prop], capture_output=True, text=True, timeout=3600,
-                           env=dict(os.environ, VERIF_EVIDENCE_DIR="/var/tmp/verif-seed-evidence", VERIF_REPO=wt, VERIF_REPLAY_TARGET="/var/tmp/verif-replay-target-seeds"))
-    finally:
+    # the seeded tree is ONE scratch worktree of /repo HEAD (outside /repo and /verif, reset between seeds so that the native build stays incremental, removed at the end);
+    # the checks are pointed at it with VERIF_REPO, so /repo itself is never touched and a check running on /repo at the same time is not disturbed
+    wt = WT
+    head = subprocess.run(["git", "-C", "/repo", "rev-parse", "HEAD"], capture_output=True, text=True).stdout.strip()
+    have = subprocess.run(["git", "-C", wt, "rev-parse", "HEAD"], capture_output=True, text=True).stdout.strip() if os.path.isdir(wt) else ""
+    if have != head:
         subprocess.run(["git", "-C", "/repo", "worktree", "remove", "--force", wt], capture_output=True)
         subprocess.run(["git", "-C", "/repo", "worktree", "prune"], capture_output=True)
+        w = subprocess.run(["git", "-C", "/repo", "worktree", "add", "--detach", wt, "HEAD"], capture_output=True, text=True)
+        if w.returncode != 0:
+            res[name] = dict(property=prop, applied=False, note=w.stderr[-300:]); continue
+    subprocess.run(["git", "-C", wt, "checkout", "--", "."], capture_output=True)
+    subprocess.run(["git", "-C", wt, "clean", "-fdq"], capture_output=True)
+    a = subprocess.run(["git", "-C", wt, "apply", d], capture_output=True, text=True)
+    if a.returncode != 0:
+        res[name] = dict(property=prop, applied=False, note=a.stderr[-300:]); continue
+    try:
+        p = subprocess.run([os.path.join(VERIF, "check"), prop], capture_output=True, text=True, timeout=3600,
+                           env=dict(os.environ, VERIF_EVIDENCE_DIR="/var/tmp/verif-seed-evidence", VERIF_REPO=wt, VERIF_REPLAY_TARGET=os.environ.get("VERIF_SEEDS_TARGET", "/var/tmp/verif-replay-target-seeds")))
+    finally:
+        subprocess.run(["git", "-C", wt, "checkout", "--", "."], capture_output=True)
     lines = [l for l in p.stdout.split("\n") if l.startswith(("VIOLATION", "INFRA", "SUMMARY", "KNOWN"))]
     res[name] = dict(property=prop, applied=True, exit=p.returncode, detected=(p.returncode == 1), output=lines)
     print(name, "exit", p.returncode, "|", "; ".join(l.split(" obligation=")[-1] for l in lines if l.startswith("VIOLATION"))[:200], flush=True)
+subprocess.run(["git", "-C", "/repo", "worktree", "remove", "--force", WT], capture_output=True)
+subprocess.run(["git", "-C", "/repo", "worktree", "prune"], capture_output=True)
 out = os.path.join(VERIF, "seeded", "RESULTS.json")
 old = json.load(open(out)) if os.path.exists(out) and only else {}
 old.update(res)
